@@ -245,25 +245,34 @@ def prop_dispatch(case):
         "dataset": {"d": {"megacomplex": ["m"]}},
     }
     model, params = testmc.make_model(spec, {"r": rates})
-    y = case.get("sign", 1) * (rng.standard_normal(m) + 2)  # negative data: the NNLS constraint is active (all clps zero for n = 1)
-    ds = xr.DataArray(y[:, None], coords=[("model", t), ("global", [1.0])]).to_dataset(name="data")
+    # several global indices with a weight that differs from index to index: each index is its own linear problem
+    ng = 1 + case["seed"] % 3
+    gax = [1.0, 2.5, 4.0][:ng]
+    Y = case.get("sign", 1) * (rng.standard_normal((m, ng)) + 2)
+    W = rng.uniform(0.5, 2.0, (m, ng)) if case["seed"] % 2 else None
+    ds = xr.DataArray(Y, coords=[("model", t), ("global", gax)]).to_dataset(name="data")
+    if W is not None:
+        ds["weight"] = (("model", "global"), W)
     scheme = Scheme(model, params, {"d": ds}, maximum_number_function_evaluations=1)
     with expect_ok("dispatch.optimize"):
         res = optimize(scheme, verbose=False, raise_exception=True)
     A = np.exp(-np.outer(t, rates))
     fn = residual_variable_projection if case["residual_function"] == "variable_projection" else residual_nnls
-    clp, r = fn(A, y)
-    got_clp = res.data["d"].clp.sel({"global": 1.0}).values
-    got_r = res.data["d"].residual.sel({"global": 1.0}).values
-    sc = np.abs(y).max()
-    check(np.allclose(got_clp, clp, rtol=1e-9, atol=1e-9 * sc), "dispatch.clp", lambda: f"{got_clp} vs {clp}")
-    check(np.allclose(got_r, r, rtol=0, atol=1e-9 * sc), "dispatch.residual")
-    if case["residual_function"] == "non_negative_least_squares":
-        check(np.all(got_clp >= 0), "dispatch.nnls_nonneg")
-        ref_vp, _ = residual_variable_projection(A, y)
-        differs = bool(np.any(np.asarray(ref_vp)[:n] < -1e-9))
-    else:
-        differs = False
+    differs = False
+    for gi, g in enumerate(gax):
+        w = W[:, gi] if W is not None else np.ones(m)
+        y = Y[:, gi]
+        clp, r = fn((A.T * w).T, y * w)
+        got_clp = res.data["d"].clp.sel({"global": g}).values
+        name = "weighted_residual" if W is not None else "residual"
+        got_r = res.data["d"][name].sel({"global": g}).values
+        sc = np.abs(y).max()
+        check(np.allclose(got_clp, clp, rtol=1e-9, atol=1e-9 * sc), "dispatch.clp", lambda: f"index {gi}: {got_clp} vs {clp}")
+        check(np.allclose(got_r, r, rtol=0, atol=1e-9 * sc), "dispatch.residual", lambda: f"index {gi}")
+        if case["residual_function"] == "non_negative_least_squares":
+            check(np.all(got_clp >= 0), "dispatch.nnls_nonneg")
+            ref_vp, _ = residual_variable_projection((A.T * w).T, y * w)
+            differs = differs or bool(np.any(np.asarray(ref_vp)[:n] < -1e-9))
     return {"nontrivial": bool(n > 1), "tags": [case["residual_function"], "nnls_differs_from_vp" if differs else "same"]}
 
 
